@@ -743,7 +743,7 @@ fn c05(ctx: &Ctx) -> i32 {
             let mut part = Part::new("BB-exhaustive", "every partial-write offset 0..=len, every truncation offset (input changed and unchanged), one bit flip per byte, for the one-target and the two-target reference records");
             for two in [false, true] {
                 // probe the record length
-                let probe = eval_c05(&C05Case { two_targets: two, fault: Fault::PartialWrite(u16::MAX) });
+                let probe = eval_c05(&C05Case { two_targets: two, fault: Fault::PartialWrite(u16::MAX), revert: false });
                 let len = probe.sample["detail"]["full_len"].as_u64().unwrap_or(400) as usize;
                 let cases = exhaustive_cases(two, len);
                 let results: Vec<CaseResult> = {
